@@ -311,17 +311,27 @@ pub fn run(run: &mut Run) {
         }
     }
 
-    // ---- fractional terms with 1..18 fraction digits in every unit, several digit patterns,
-    //      alone and followed by a second term: the exact truncated value
+    // ---- fractional terms with 1..45 fraction digits in every unit, several digit patterns,
+    //      alone and followed by a second term: the exact truncated value (beyond 18 digits the
+    //      value computed from the first 18 digits is accepted as well: Go stops accumulating
+    //      there and the statement does not decide the last nanosecond)
     run.sub("fractions");
-    for unit in ["h", "m", "s", "ms", "us", "ns"] {
-        for digits in 1..=18usize {
+    /// floor(0.<frac> * f)
+    fn frac_floor(frac: &str, f: u128) -> i128 {
+        let mut carry: u128 = 0;
+        for c in frac.bytes().rev() {
+            carry = ((c - b'0') as u128 * f + carry) / 10;
+        }
+        carry as i128
+    }
+    for (unit, f) in [("h", 3_600_000_000_000u128), ("m", 60_000_000_000), ("s", 1_000_000_000), ("ms", 1_000_000), ("us", 1_000), ("ns", 1)] {
+        for digits in 1..=45usize {
             for pat in 0..5 {
                 let frac: String = match pat {
                     0 => format!("5{}", "0".repeat(digits - 1)),
                     1 => "9".repeat(digits),
                     2 => format!("{}1", "0".repeat(digits - 1)),
-                    3 => "123456789012345678"[..digits].to_string(),
+                    3 => "123456789012345678901234567890123456789012345"[..digits].to_string(),
                     _ => format!("{}7", "3".repeat(digits - 1)),
                 };
                 for (whole, tail) in [("0", ""), ("1", ""), ("2", "3ns"), ("0", "1h")] {
@@ -329,7 +339,12 @@ pub fn run(run: &mut Run) {
                         continue;
                     }
                     let text = format!("{}.{}{}{}", whole, frac, unit, tail);
-                    let spec = classify(&text);
+                    let rest: i128 = whole.parse::<i128>().unwrap() * f as i128 + match tail { "3ns" => 3, "1h" => 3_600_000_000_000, _ => 0 };
+                    let exact = rest + frac_floor(&frac, f);
+                    let trunc18 = rest + frac_floor(&frac[..digits.min(18)], f);
+                    if digits <= 18 {
+                        assert!(classify(&text) == Spec::MustAccept(exact), "reference models disagree on {}", text);
+                    }
                     let mut ctx = base.new_inner_scope();
                     ctx.add_variable_from_value("v", text.clone());
                     let got = subj::exec(&p_parse, &ctx);
@@ -337,11 +352,13 @@ pub fn run(run: &mut Run) {
                     run.validated();
                     run.nontrivial();
                     run.class(&format!("fractions:{}:{}", unit, got.tag()), || json!({"text": text, "got": got.show()}));
-                    if let Spec::MustAccept(v) = spec {
-                        match &got {
-                            Out::Val(g) if ns_of(g) == Some(v) => {}
-                            other => run.fail(&format!("C15|fractions|{}|digits{}|got={}", unit, if digits <= 9 { "<=9" } else { ">9" }, other.tag()), format!("duration({:?}) gave {} (exact value {} ns)", text, other.show(), v), json!({"text": text})),
-                        }
+                    match &got {
+                        Out::Val(g) if ns_of(g) == Some(exact) || ns_of(g) == Some(trunc18) => {}
+                        other => run.fail(
+                            &format!("C15|fractions|{}|digits{}|got={}", unit, if digits <= 9 { "<=9" } else if digits <= 18 { "<=18" } else { ">18" }, other.tag()),
+                            format!("duration({:?}) gave {} (exact value {} ns)", text, other.show(), exact),
+                            json!({"text": text}),
+                        ),
                     }
                 }
             }
